@@ -186,6 +186,9 @@ def run(chk: Check):
                 "non-interference theorems), then with a 4-thread pool; block values of all orders must coincide; non-trivial = more than 2 tasks")
     chk.assumptions = ["true interleavings inside NumPy kernels are not modelled; the per-task premise is observed, not proved about NumPy"]
     chk.run_proofs()
+    for _ in range(200 if chk.tier == "thorough" else 20):
+        prog, sources, want = progs.arange_fftfreq(chk.rng)
+        run_program(chk, da, prog, sources, want, chk.rng)
     n = 4000 if chk.tier == "thorough" else 200
     for prog, sources, want in progs.gen_programs(chk.rng, n, ops=progs.CORE_OPS + ["swv", "roll", "take", "repeat", "map_overlap"]):
         run_program(chk, da, prog, sources, want, chk.rng)
